@@ -586,7 +586,7 @@ def strat_hand(draw):
     if cls == 'CNF':
         rows = _rows(draw, st.lists(_lit(maxvar), max_size=4), n)
     else:
-        term = st.tuples(st.one_of(st.integers(1, 12), st.integers(1, 3), st.integers(-12, -1)), _lit(maxvar)).map(list)
+        term = st.tuples(st.one_of(st.integers(1, 12), st.integers(1, 3), st.integers(-12, -1), st.integers(0, 1)), _lit(maxvar)).map(list)
         con = st.tuples(st.just('con'), st.lists(term, max_size=4), st.sampled_from(['>=', '==', '==', '<=', '<', '>']),
                         st.integers(-5, 30)).map(list)
         cl = st.tuples(st.just('clause'), st.lists(_lit(maxvar), max_size=4)).map(list)
